@@ -366,12 +366,30 @@ type ref struct {
 	root    byte
 	lenient bool  // an empty list with an element id above 12: no claim either way
 	hostile int64 // largest declared count that exceeds what the remaining input can hold
+	deep    int   // lists / compounds inside one another on the deepest path walked
 }
 
+// maxOpen: lists and compounds that may be open at once (maxNestingDepth + 1, the outermost value is depth 0)
+const maxOpen = 10001
+
 type walker struct {
-	b   []byte
-	off int
-	r   *ref
+	b     []byte
+	off   int
+	depth int
+	r     *ref
+}
+
+// enter a list or compound: deeper than maxOpen is refused (and the walker itself stops recursing)
+func (w *walker) enter() bool {
+	w.depth++
+	if w.depth > w.r.deep {
+		w.r.deep = w.depth
+	}
+	if w.depth > maxOpen {
+		w.fail("too-deep")
+		return false
+	}
+	return true
 }
 
 func (w *walker) need(n int64, declared int64) bool {
@@ -447,6 +465,10 @@ func (w *walker) value(id byte) bool {
 		w.off += int(size)
 		return true
 	case id == 9:
+		if !w.enter() {
+			return false
+		}
+		defer func() { w.depth-- }()
 		if !w.need(1, 0) {
 			return false
 		}
@@ -484,6 +506,10 @@ func (w *walker) value(id byte) bool {
 		}
 		return true
 	case id == 10:
+		if !w.enter() {
+			return false
+		}
+		defer func() { w.depth-- }()
 		for {
 			if !w.need(1, 0) {
 				return false
@@ -785,8 +811,8 @@ func judge(cat string, file bool, target string, data []byte, w ref, res result,
 			os.Exit(0)
 		}
 		return
-	case "oom":
-		o.Fail("C03.panic.oom."+base, "%s", desc())
+	case "fatal": // the child process died: runtime fatal error (stack overflow, out of memory), not recoverable
+		o.Fail("C03.fatal."+base, "%s: %s", desc(), res.Panic)
 		return
 	}
 	if mustFail != "" && res.Class == "ok" {
@@ -820,7 +846,7 @@ func judge(cat string, file bool, target string, data []byte, w ref, res result,
 func feed(cat string, file bool, data []byte, targets []string, mustFail string) {
 	w := refWalk(data, file)
 	for _, target := range targets {
-		if w.hostile >= hostileMin {
+		if w.hostile >= hostileMin || w.deep > deepMin {
 			hostileQ = append(hostileQ, hostileCase{cat, file, target, data, w})
 			continue
 		}
@@ -856,7 +882,7 @@ func feed(cat string, file bool, data []byte, targets []string, mustFail string)
 // RawMessage{Type, Data}: String() and Unmarshal into every kind of destination
 func feedRaw(cat string, id byte, data []byte) {
 	w := refWalk(append([]byte{id}, data...), false)
-	if w.hostile >= hostileMin {
+	if w.hostile >= hostileMin || w.deep > deepMin {
 		return
 	}
 	idx++
@@ -913,6 +939,8 @@ func feedRaw(cat string, id byte, data []byte) {
 
 const (
 	hostileMin = 1 << 12   // a declared count above this that the input cannot hold: decoded in the child process
+	deepMin    = 2000      // nesting above this: decoded in the child process (a stack overflow is fatal to the process)
+	modelMax   = 1 << 20   // inputs longer than this are judged by the predicate only (not sent to the model)
 	parentAS   = 16 << 30  // RLIMIT_AS of the harness itself: a runaway decoder kills the harness, not the machine
 	childAS    = 3 << 30   // RLIMIT_AS of the child
 	allocBound = 256 << 20 // bytes a single decode of a small input may allocate in total
@@ -940,6 +968,8 @@ func childMain() {
 	}
 }
 
+var childErr *bytes.Buffer // stderr of the current child (the runtime's fatal error message)
+
 type child struct {
 	cmd *exec.Cmd
 	in  io.WriteCloser
@@ -950,7 +980,9 @@ func startChild() *child {
 	cmd := exec.Command(os.Args[0], "--child")
 	in, _ := cmd.StdinPipe()
 	outp, _ := cmd.StdoutPipe()
-	cmd.Stderr = nil
+	errb := &bytes.Buffer{}
+	cmd.Stderr = errb
+	childErr = errb
 	if err := cmd.Start(); err != nil {
 		panic(err)
 	}
@@ -990,7 +1022,14 @@ func runHostile() {
 				c.cmd.Wait()
 				c = nil
 				dead++
-				res = result{Class: "oom"}
+				msg := childErr.String()
+				if i := strings.Index(msg, "fatal error"); i >= 0 {
+					msg = msg[i:]
+				}
+				if i := strings.IndexByte(msg, '\n'); i >= 0 {
+					msg = msg[:i]
+				}
+				res = result{Class: "fatal", Panic: msg}
 			} else {
 				parts := strings.Split(strings.TrimRight(a.line, "\n"), "\t")
 				fs := strings.Fields(parts[0])
@@ -1013,21 +1052,25 @@ func runHostile() {
 			res = result{Class: "hang"}
 		}
 		implClass := res.Class
-		if implClass == "oom" || implClass == "hang" {
+		if implClass == "fatal" || implClass == "hang" {
 			implClass = "panic" // the model has no such outcome: it shows up as a mismatch as well
 		}
 		line := fmt.Sprintf("R %d %s", idx, implClass)
 		if res.Class == "ok" {
 			line = res.Line(fmt.Sprintf("R %d", idx))
 		}
-		o.Case("hostile."+h.cat+"."+strings.SplitN(h.target, ":", 2)[0], true,
-			fmt.Sprintf("R %d %s %s %s", idx, fmtName(h.file), caseTarget(h.target), hx.Hex(h.data)), line)
+		if len(h.data) > modelMax {
+			o.Eval("hostile."+h.cat+"."+strings.SplitN(h.target, ":", 2)[0], true, fmt.Sprintf("%s %s %d bytes deep=%d -> %s", fmtName(h.file), h.target, len(h.data), h.w.deep, res.Class))
+		} else {
+			o.Case("hostile."+h.cat+"."+strings.SplitN(h.target, ":", 2)[0], true,
+				fmt.Sprintf("R %d %s %s %s", idx, fmtName(h.file), caseTarget(h.target), hx.Hex(h.data)), line)
+		}
 		judge("hostile."+h.cat, h.file, h.target, h.data, h.w, res, "")
 		base := strings.SplitN(h.target, ":", 2)[0]
 		if alloc > allocBound {
 			o.Fail("C03.alloc."+base, "fmt=%s target=%s input=%s (%d bytes) allocated %d MiB, declared count %d", fmtName(h.file), caseTarget(h.target), clip(hx.Hex(h.data)), len(h.data), alloc>>20, h.w.hostile)
 		}
-		if ms > 3000 {
+		if ms > 4000 {
 			o.Fail("C03.hang."+base, "fmt=%s target=%s input=%s took %d ms", fmtName(h.file), caseTarget(h.target), clip(hx.Hex(h.data)), ms)
 		}
 		allocSeen++
@@ -1221,6 +1264,55 @@ func main() {
 			}
 		}
 	}
+	// ---- nesting: exactly at, one above and far above the limit (10001 open lists / compounds), every walker;
+	//      400000 levels fit a 2 MiB protocol frame, 10^6 a file.  All in the child process.
+	nest := func(list bool, n int, wrap string) []byte {
+		var d []byte
+		switch wrap { // the nested value sits in a field of the struct shape S1: known (any) or unknown (skipped)
+		case "B":
+			d = append(d, 10, 0, 1, 'B')
+			n--
+		case "zz":
+			d = append(d, 10, 0, 2, 'z', 'z')
+			n--
+		}
+		if list {
+			d = append(d, 9)
+			for i := 1; i < n; i++ {
+				d = append(d, 9, 0, 0, 0, 1)
+			}
+			d = append(d, 0, 0, 0, 0, 0)
+		} else {
+			d = append(d, 10)
+			for i := 1; i < n; i++ {
+				d = append(d, 10, 0, 1, 'a')
+			}
+			for i := 0; i < n; i++ {
+				d = append(d, 0)
+			}
+		}
+		if wrap != "" {
+			d = append(d, 0)
+		}
+		return d
+	}
+	for _, n := range []int{maxOpen, maxOpen + 1} {
+		for _, list := range []bool{true, false} {
+			feed("depth", false, nest(list, n, ""), []string{"any", "raw", "dyn", "snbt", "ty:sl:any"}, "")
+			feed("depth", false, nest(list, n, "B"), []string{"st:0"}, "")
+			feed("depth", false, nest(list, n, "zz"), []string{"st:0", "skip"}, "")
+		}
+	}
+	feed("depth", false, nest(false, maxOpen, ""), []string{"map", "skip"}, "")
+	feed("depth", false, nest(false, maxOpen+1, ""), []string{"map", "skip"}, "")
+	for i, n := range []int{100000, 400000, 1000000} {
+		if n > 400000 && !o.Thorough() {
+			n = 420000
+		}
+		feed("depth", false, nest(i%2 == 0, n, ""), []string{"any", "raw", "dyn", "snbt", "skip"}, "")
+		feed("depth", false, nest(i%2 == 1, n, "B"), []string{"st:0"}, "")
+	}
+
 	// ---- uniform random strings (first byte biased towards the 13 ids)
 	for i := 0; i < o.N(1500, 30); i++ {
 		b := r.Bytes(r.Intn(40))
